@@ -119,7 +119,8 @@ func (w *ShardWriter) dial(nodeID uint64) (net.Conn, error) {
 		if err != nil {
 			return nil, err
 		}
-		w.pool.setPool(nodeID, p)
+		// Concurrent callers may both have found no pool: keep exactly one.
+		w.pool.setPoolIfAbsent(nodeID, p)
 	}
 	return w.pool.conn(nodeID)
 }
